@@ -62,6 +62,14 @@ Limit == IF count < 0 THEN N ELSE N   \* placeholder for readability
 PrefixOfSet == \A i \in 1..Len(popped) : popped[i] = i
 (* ... a peek announces the next pop ... *)
 PeekIsNextPop == lastpeek # 0 => lastpeek = Len(popped) + 1
+(* what send_evrrul()/send_rrul() write when the stream is serialised in this state (checkpoint, submission):    *)
+(* DTSTART = the next unread cached occurrence, or the refill seed when the cache is read up; COUNT = what is    *)
+(* left of the rule's COUNT plus the unread cached occurrences.  0 = the nul instant, -1 = no COUNT.             *)
+SerDs == IF rdi < Len(cch) THEN cch[rdi + 1] ELSE seed
+SerCount == IF count < 0 THEN -1 ELSE count + (Len(cch) - rdi)
+(* the stream a reader of that text gets (ideal filler again) *)
+Reparsed == IF SerDs = 0 \/ SerCount = 0 THEN <<>>
+            ELSE LET n == IF SerCount < 0 THEN N - SerDs + 1 ELSE Min2(SerCount, N - SerDs + 1) IN [i \in 1..(IF n < 0 THEN 0 ELSE n) |-> SerDs + i - 1]
 (* under an arbitrary correction: strictly increasing, only corrected members of the set, and a peek is still the next pop *)
 StrictlyIncreasing == \A i \in 1..(Len(popped) - 1) : popped[i] < popped[i + 1]
 OnlyCorrected == \A i \in 1..Len(popped) : \E j \in 1..N : corr[j] = popped[i]
